@@ -704,6 +704,18 @@ func (x *Exec) evalCall(e *Expr, env *Env) Val {
 		as := args()
 		h := x.heapFor(env, "FBLEN", "(Array Int Int)")
 		return specInt(sx("select", h, x.termOf(as[0])))
+	case "dbyte":
+		as := args()
+		h := x.heapFor(env, "DISK", "(Array Int (Array Int Int))")
+		return specInt(sx("select", sx("select", h, x.termOf(as[0])), as[1].T))
+	case "dsize":
+		as := args()
+		h := x.heapFor(env, "DISKLEN", "(Array Int Int)")
+		return specInt(sx("select", h, x.termOf(as[0])))
+	case "drow":
+		as := args()
+		h := x.heapFor(env, "DISK", "(Array Int (Array Int Int))")
+		return Val{K: KArr, T: sx("select", h, x.termOf(as[0]))}
 	case "frow":
 		// frow(fb): the byte row (Array Int Int) of a file buffer
 		as := args()
